@@ -219,7 +219,7 @@ func rootSourceFirst(c *Check) string {
 }
 
 func runC09(c *Check) {
-	c.Explanation = "Decides structural necessary conditions of C09 over everything outside package profile (the parser is C02): every explicit panic is in an inventory and is either discharged by an argument the checker re-verifies (config fields have only the four supported types; web handlers only pass command names that are keys of pprofCommands and parseCommandLine rejects unknown names; demangler modes assigned in Symbolize are cases of demanglerModeToOptions) or is an internal-invariant assertion supported by another rule (R1); every index or slice with constant bounds or len-k bounds is protected by a dominating length check, by its producer, or by a reviewed invariant (R2); no pointer obtained together with a discarded error is dereferenced unchecked (R3); errors of report generation reach PrintErr / http.Error and never a return or exit of the session loop (R4); every constant regular expression and every embedded HTML template compiles (R5). Also: variable index sites of the typed-command parser (R2), integer parameters used as slice bounds are non-negative at every caller (R8), work-list loops mark what they queue (R9). Not decided: hangs, arithmetic panics, nil maps in general, option values rejected late, plug-in behaviour."
+	c.Explanation = "Decides structural necessary conditions of C09 over everything outside package profile (the parser is C02): every explicit panic is in an inventory and is either discharged by an argument the checker re-verifies (config fields have only the four supported types; web handlers only pass command names that are keys of pprofCommands and parseCommandLine rejects unknown names; demangler modes assigned in Symbolize are cases of demanglerModeToOptions) or is an internal-invariant assertion supported by another rule (R1); every index or slice with constant bounds or len-k bounds is protected by a dominating length check, by its producer, or by a reviewed invariant (R2); no pointer obtained together with a discarded error is dereferenced unchecked (R3); errors of report generation reach PrintErr / http.Error and never a return or exit of the session loop (R4); every constant regular expression and every embedded HTML template compiles (R5). Also: variable index sites of the typed-command parser (R2), integer parameters used as slice bounds are non-negative at every caller (R8), work-list loops mark what they queue (R9). Round-I additions: an index handed back by a call needs a lower bound as well; a self-call on a negated integer parameter is guarded against the minimum value; a nil chunk result is never merged (shared with C16-R7). Not decided: hangs, arithmetic panics, nil maps in general, option values rejected late, plug-in behaviour."
 	c.panicInventory()
 	// the functions that take a typed command line apart index their tokens with running
 	// positions: there every index and slice expression is a site, not only the constant ones
@@ -327,6 +327,42 @@ func (c *Check) guardRule(rule string, sel func(*ssa.Function) bool, constOnly b
 					if nHelper >= 1 && len(cands) == nHelper && len(directCallers(p, f)) == 1 {
 						why, ok, hookFn = exceptions[cands[0]]+" [site now in helper "+fnName(f)+"]", true, fnName(caller)
 						break
+					}
+				}
+			}
+			if !ok {
+				// last resort, only for invariants that a hook re-verifies on every run: the
+				// helper has a single caller, that caller has exactly one reviewed site that no
+				// longer exists there, and the helper has exactly one site the engine cannot prove
+				if callers := directCallers(p, f); len(callers) == 1 {
+					caller := callers[0]
+					if _, hasHook := hooks[fnName(caller)]; hasHook {
+						var cands []string
+						for k3 := range exceptions {
+							if !seenKeys[k3] && !used[k3] && strings.HasPrefix(k3, "idx:"+fnName(caller)+":") {
+								cands = append(cands, k3)
+							}
+						}
+						// (keys of the caller seen later in this run are excluded below)
+						callerKeys := map[string]bool{}
+						for _, s2 := range g.collectSites(caller, constOnly) {
+							callerKeys["idx:"+fnName(caller)+":"+s2.desc] = true
+						}
+						var gone []string
+						for _, k3 := range cands {
+							if !callerKeys[k3] {
+								gone = append(gone, k3)
+							}
+						}
+						unproved := 0
+						for _, s2 := range g.collectSites(f, constOnly) {
+							if g.discharge(s2) == "" {
+								unproved++
+							}
+						}
+						if len(gone) == 1 && unproved == 1 {
+							why, ok, hookFn = exceptions[gone[0]]+" [site now in helper "+fnName(f)+", written differently]", true, fnName(caller)
+						}
 					}
 				}
 			}
